@@ -67,6 +67,18 @@ CHECKS["C04"] = dict(
     technique="TLA+ transcription of the decoders, TLC exhaustive small-width tables + replay; logged decodes re-evaluated by TLC",
     design="5 C04")
 
+CHECKS["C06"] = dict(
+    text=("Criteria.tla defines Comparison / ComparisonList / Condition / nested ANDed-ORed BooleanExpression / DiscreteLookup "
+          "evaluation over typed values with three-valued (Kleene) truth, literal coercion to the operand's type and all operator "
+          "spellings. TLC evaluates it on the exhaustive small space (relations x spellings x selectors x literals x boundary values "
+          "incl. 0/False/negative/int-vs-float; every group shape up to the bound x all truth assignments; lookup orders) and on "
+          "random trees, checks its own De Morgan duality on every boolean case, and compares with what the real classes returned "
+          "when built through constructors and through XML with explicit and omitted defaults."),
+    note="Relations that are mathematically undefined (missing operand, literal not expressible in the operand's type, ordering of "
+         "strings) accept any answer; values restricted to +-2^12 with dyadic fractions for exact 32-bit arithmetic. " + TRUSTED,
+    technique="TLA+ transcription of the evaluation rules; TLC evaluates the exhaustive bounded case space and logged random cases against the real classes",
+    design="5 C06")
+
 NOT_YET = {}
 for _i in range(1, 21):
     _p = f"C{_i:02d}"
